@@ -1,6 +1,6 @@
 """C02 - instant <-> civil datetime under a fixed offset (narrow)."""
 from ..rules_shape import floor_a, const_agree, req_dep, split_pipeline
-from ..rules_dep import run_dep
+from ..rules_dep import run_dep, run_err_both
 from ..rules_signpair import run_signpair, run_minpair
 from ..rules_contract import public_precond
 from ..rules_tz import floor_print
@@ -8,6 +8,7 @@ from ..rules_tz import floor_print
 
 def run(ctx, rep):
     run_dep(ctx, rep, "C02")
+    run_err_both(ctx, rep, "C02")
     run_signpair(ctx, rep)
     run_minpair(ctx, rep)
     prog = ctx.prog("Q")
